@@ -17,7 +17,6 @@ import Driver.Fill
 import Driver.Format
 import Driver.CompositeQ
 import Driver.Opacity
-import Driver.DrawFrame
 /-! `pixdrv <domain>`: reads requests on stdin, writes one reply line per request. -/
 
 partial def loop (h : IO.FS.Stream) (out : IO.FS.Stream) (f : String → String) : IO Unit := do
@@ -50,5 +49,4 @@ def main (args : List String) : IO UInt32 := do
   | ["compositeq"] => loop stdin stdout Driver.CompositeQ.handle; return 0
   | ["opacity"] => loop stdin stdout Driver.Opacity.handle; return 0
   | ["samplefast"] => loop stdin stdout Driver.Sample.handleFast; return 0
-  | ["drawframe"] => loop stdin stdout Driver.DrawFrame.handle; return 0
   | _ => IO.eprintln "usage: pixdrv <domain>"; return 2
